@@ -62,3 +62,33 @@ void h_C20_sort_instants(void)
 	}
 	SENTINEL("sort instants");
 }
+
+/* binary searches of the sort: contracts enforced by DFCC with an array of
+ * symbolic length (frame variant) - any n up to 2^20 */
+static size_t BinaryFirst(const echs_instant_t *restrict array, const echs_instant_t value, const Range range)
+__CPROVER_requires(range.start <= range.end && range.end <= (1UL << 20) && __CPROVER_is_fresh(array, range.end * sizeof(*array)))
+__CPROVER_assigns()
+__CPROVER_ensures(range.start <= __CPROVER_return_value && __CPROVER_return_value <= range.end);
+static size_t BinaryLast(const echs_instant_t *restrict array, const echs_instant_t value, const Range range)
+__CPROVER_requires(range.start <= range.end && range.end <= (1UL << 20) && __CPROVER_is_fresh(array, range.end * sizeof(*array)))
+__CPROVER_assigns()
+__CPROVER_ensures(range.start <= __CPROVER_return_value && __CPROVER_return_value <= range.end);
+
+void h_C20_binary_first(void)
+{
+	const echs_instant_t *array;
+	echs_instant_t value;
+	Range range;
+	size_t r = BinaryFirst(array, value, range);
+	(void)r;
+	SENTINEL("binary first");
+}
+void h_C20_binary_last(void)
+{
+	const echs_instant_t *array;
+	echs_instant_t value;
+	Range range;
+	size_t r = BinaryLast(array, value, range);
+	(void)r;
+	SENTINEL("binary last");
+}
